@@ -93,6 +93,15 @@ def step (st : St) (toks : List String) : St × String :=
   | ["flush", cs] =>
     let r := st.sys.flush (splitList ((stripKey "choices" cs).getD "-") ";")
     ({ sys := r.1, trace := r.2.toArray }, s!"calls {r.2.length}")
+  | ["redeliver", cluster, k, epoch, sp, sn, dp, dn, ranges] =>
+    match epoch.toNat?, Um.Drv.Broker.parseRanges ranges with
+    | some e, some rl =>
+      let mi : MigInfo := { epoch := e, srcProxy := sp, srcNode := sn, dstProxy := dp, dstNode := dn }
+      let tag : Tag := if k == "M" then .migrating mi else if k == "I" then .importing mi else .none
+      let t : Task := { cluster := cluster, sr := { ranges := rl, tag := tag } }
+      let r := st.sys.redeliver (.commit t)
+      ({ sys := r.1, trace := r.2.toArray }, (r.2.head?).getD "no-record")
+    | _, _ => (st, "bad-op")
   | ["t", i] =>
     match i.toNat? with
     | some i => (st, (st.trace[i]?).getD "no-such-record")
